@@ -8,26 +8,26 @@ RT_RULE = ("each run draws stream parameters, encoder options, signal family, le
 
 PLAN = {
     "C01": dict(level="exploration", rule=RT_RULE,
-                quick=[("rt", "release", 40000), ("rt", "checked", 10000), ("rtsweep", "release", 300)],
-                thorough=[("rt", "release", 1500000), ("rt", "checked", 300000), ("rtsweep", "release", 20000), ("rtsweep", "checked", 4000)],
+                quick=[("rt", "release", 40000), ("rt", "checked", 10000), ("rtsweep", "release", 300), ("sizes", "release", 4000)],
+                thorough=[("rt", "release", 1500000), ("rt", "checked", 300000), ("rtsweep", "release", 20000), ("rtsweep", "checked", 4000), ("sizes", "release", 200000), ("sizes", "checked", 20000)],
                 exhaustive_subspaces=["rtsweep: every stream length 1..=70 for each drawn (block 16/32, LPC order, signal family, channels, depth, partition order) cell"],
                 assumptions=["input/option space is sampled by the seeded workload, not enumerated",
                              "PcmModel (harness) is the single-copy log"]),
     "C02": dict(level="exploration", rule=RT_RULE + "; the judge is refflac only; scenario rawrt does the same for raw frame streams of the stream writer",
-                quick=[("rt", "release", 40000), ("rawrt", "release", 10000), ("rtsweep", "release", 300)],
-                thorough=[("rt", "release", 1500000), ("rt", "checked", 200000), ("rawrt", "release", 400000), ("rtsweep", "release", 20000)],
+                quick=[("rt", "release", 40000), ("rawrt", "release", 10000), ("rtsweep", "release", 300), ("sizes", "release", 4000)],
+                thorough=[("rt", "release", 1500000), ("rt", "checked", 200000), ("rawrt", "release", 400000), ("rtsweep", "release", 20000), ("sizes", "release", 200000)],
                 assumptions=["refflac (written from RFC 9639, shares no code with the crate) is correct"]),
     "C09": dict(level="exploration", rule=RT_RULE + "; scenario c09big = 932100 frames with a seek point requested per frame (more than a table can hold)",
-                quick=[("rt", "release", 40000), ("c09big", "release", 1)],
-                thorough=[("rt", "release", 1500000), ("rt", "checked", 200000), ("c09big", "release", 1), ("c09big", "checked", 1)],
+                quick=[("rt", "release", 40000), ("c09big", "release", 1), ("sizes", "release", 3000)],
+                thorough=[("rt", "release", 1500000), ("rt", "checked", 200000), ("c09big", "release", 1), ("c09big", "checked", 1), ("sizes", "release", 150000)],
                 assumptions=["frame boundaries come from refflac"]),
     "C19": dict(level="exploration", rule=RT_RULE + "; scenario rawrt applies the bound to raw stream-writer frames",
-                quick=[("rt", "release", 40000), ("rawrt", "release", 10000)],
-                thorough=[("rt", "release", 1500000), ("rawrt", "release", 400000)],
+                quick=[("rt", "release", 40000), ("rawrt", "release", 10000), ("sizes", "release", 3000)],
+                thorough=[("rt", "release", 1500000), ("rawrt", "release", 400000), ("sizes", "release", 150000)],
                 assumptions=["frame boundaries come from refflac"]),
     "C17": dict(level="exploration", rule=RT_RULE,
-                quick=[("rt", "release", 30000), ("dmg", "release", 150), ("dmgcat", "release", 150), ("synth", "release", 20000), ("bent", "release", 12000), ("dmggen", "release", 80)],
-                thorough=[("rt", "release", 1000000), ("dmg", "release", 4000), ("dmgcat", "release", 4000), ("synth", "release", 1500000), ("synth", "checked", 200000), ("bent", "release", 1000000), ("bent", "checked", 200000), ("dmggen", "release", 2000)],
+                quick=[("rt", "release", 30000), ("dmg", "release", 150), ("dmgcat", "release", 150), ("synth", "release", 20000), ("bent", "release", 12000), ("dmggen", "release", 80), ("sizes", "release", 2000)],
+                thorough=[("rt", "release", 1000000), ("dmg", "release", 4000), ("dmgcat", "release", 4000), ("synth", "release", 1500000), ("synth", "checked", 200000), ("bent", "release", 1000000), ("bent", "checked", 200000), ("dmggen", "release", 2000), ("sizes", "release", 100000)],
                 assumptions=[]),
     "C13": dict(level="fault_enumeration", supplement="sysfault",
                 rule=("each run draws one transaction (encode+finalize through a writer front-end on a raw / caller-buffered / "
@@ -150,12 +150,16 @@ PLAN = {
 # or fault mix must change); measured names, see DESIGN.md Appendix B
 EXPECT = {
  "C01": [
+  "sizes_block_size_table_neighbourhood",
+  "sizes_final_frame_length_from_table_neighbourhood",
   "empty_write",
   "final_block_1",
   "final_block_le_2order",
   "write_ended_inside_pcm_frame"
  ],
  "C02": [
+  "sizes_block_size_table_neighbourhood",
+  "sizes_final_frame_length_from_table_neighbourhood",
   "assign_independent",
   "assign_left_side",
   "assign_mid_side",
@@ -300,6 +304,8 @@ EXPECT = {
   "write_ended_inside_pcm_frame"
  ],
  "C09": [
+  "sizes_block_size_table_neighbourhood",
+  "sizes_final_frame_length_from_table_neighbourhood",
   "c09_more_frames_than_max_points",
   "c09_no_padding",
   "c09_no_room_for_table",
@@ -328,6 +334,7 @@ EXPECT = {
   "c10_several_padding_blocks"
  ],
  "C11": [
+  "cue_isrc_with_dashes",
   "c11_flipped_metadata_still_accepted",
   "c11_list_refused",
   "c11_roundtrip_ok"
@@ -392,6 +399,8 @@ EXPECT = {
   "c16_sync_split_across_refill"
  ],
  "C17": [
+  "sizes_block_size_table_neighbourhood",
+  "sizes_final_frame_length_from_table_neighbourhood",
   "dmg_generator_made_file",
   "bent_frame_built",
   "bent_frame_invalid_per_refflac",
@@ -442,6 +451,8 @@ EXPECT = {
   "write_ended_inside_pcm_frame"
  ],
  "C19": [
+  "sizes_block_size_table_neighbourhood",
+  "sizes_final_frame_length_from_table_neighbourhood",
   "c16_parameter_change_between_frames",
   "c19_constant_block",
   "empty_write",
